@@ -92,3 +92,51 @@ mod proofs {
         intersection_in_boxes_body::<f32, _>(&mut KaniSrc);
     }
 }
+
+// ---- endpoint reuse (C04: "endpoint intersections reuse the endpoint instead of a computed point") ---------------------------
+// Real float arithmetic of the kernel, no stub.  If the kernel's own float test puts a1 on the supporting line of b
+// (cross(b1 - a1, b2 - b1) == 0 while the segments are not parallel), then a reported point IS a1, bit for bit -- not a
+// recomputed point that may be off by an ulp.  Likewise for b1 on the line of a.  Bounded magnitude so that no
+// intermediate overflows; f32 only (the f64 multipliers are out of CBMC's reach in this function).
+pub fn endpoint_reuse_body<S: Src>(s: &mut S) {
+    fn small<S: Src>(s: &mut S) -> f32 {
+        let v = s.f32();
+        s.assume(v.is_finite() && v >= -1024.0 && v <= 1024.0);
+        v
+    }
+    let a1 = Coord { x: small(s), y: small(s) };
+    let a2 = Coord { x: small(s), y: small(s) };
+    let b1 = Coord { x: small(s), y: small(s) };
+    let b2 = Coord { x: small(s), y: small(s) };
+    let (vax, vay) = (a2.x - a1.x, a2.y - a1.y);
+    let (vbx, vby) = (b2.x - b1.x, b2.y - b1.y);
+    let (ex, ey) = (b1.x - a1.x, b1.y - a1.y);
+    let kross = vax * vby - vay * vbx;
+    s.assume(kross * kross > 0.0);
+    let a1_on_b = ex * vby - ey * vbx == 0.0; // the kernel's parameter s is exactly 0
+    let b1_on_a = ex * vay - ey * vax == 0.0; // the kernel's parameter t is exactly 0
+    s.assume(a1_on_b || b1_on_a);
+    vcover!(a1_on_b && !b1_on_a, "a1-on-b");
+    vcover!(b1_on_a && !a1_on_b, "b1-on-a");
+    let r = intersection(a1, a2, b1, b2);
+    if let LineIntersection::Point(p) = r {
+        if a1_on_b && in_box(a1, b1, b2) {
+            assert!(p == a1, "C04: an intersection in the first segment's start point reuses that point bit for bit");
+        } else if b1_on_a && in_box(b1, a1, a2) {
+            let sf = (ex * vby - ey * vbx) / kross; // the kernel's parameter on the first segment
+            if sf > 0.0 && sf < 1.0 {
+                assert!(p == b1, "C04: an intersection in the second segment's start point reuses that point bit for bit");
+            }
+        }
+    }
+}
+
+#[cfg(kani)]
+mod proofs_reuse {
+    use super::*;
+
+    #[kani::proof]
+    fn endpoint_reuse_f32() {
+        endpoint_reuse_body(&mut KaniSrc);
+    }
+}
